@@ -379,6 +379,7 @@ def parse_vspec(path, modules):
                 ln = int(ml.group(1))
                 lp = LoopSpec(ln)
                 lp.anchor = ml.group(2)
+                lp.src = (path, i + 1)
                 cur_fn.loops[ln] = lp
                 j = i + 1
                 while j < n:
